@@ -173,7 +173,14 @@ def evaluate(root, top='Manifest', subpath='', last_mtime=None,
         tags = {e.tag for _, e in lst}
         if 'IGNORE' in tags:
             if len(tags) > 1:
-                m.incompatible_dontcare[full] = 'IGNORE and file entry'
+                # an IGNORE and a file entry for one and the same path are
+                # duplicates of conflicting type (in either order); beneath
+                # a further IGNORE, or when only a sub-path is verified,
+                # the text can be read either way
+                if subpath == '' and not strictly_under_ignore(full):
+                    m.incompatible[full] = 'IGNORE and file entry'
+                else:
+                    m.incompatible_dontcare[full] = 'IGNORE and file entry'
             continue
         size = lst[0][1].size
         cks = {}
